@@ -382,6 +382,18 @@ func (p *Proxy) modifyResponse(res *http.Response) error {
 	return p.ResponseModifier.ModifyResponse(res)
 }
 
+// modifyErrorResponse applies the response modifiers to an error response generated by this proxy.
+// The Proxy-Authenticate header of such a response is this proxy's own challenge to its client,
+// not a hop-by-hop header relayed from upstream, so it is kept.
+func (p *Proxy) modifyErrorResponse(res *http.Response) error {
+	challenge := res.Header.Values("Proxy-Authenticate")
+	err := p.modifyResponse(res)
+	if len(challenge) > 0 {
+		res.Header["Proxy-Authenticate"] = challenge
+	}
+	return err
+}
+
 func (p *Proxy) shouldMITM(req *http.Request) bool {
 	if p.MITMConfig == nil {
 		return false
